@@ -29,7 +29,7 @@ type c08Sample struct {
 func init() {
 	register(&Prop{
 		ID:   "C08",
-		Rule: "each run opens 2..32 (64 in thorough) simultaneous connections with distinct position-coded streams through ONE shared configuration: routes selected by the first byte lead to a shared throttle (total limiter) + recorder, tee + echo, consume + subroute + recorder, a subroute that falls through to the handler after it, the proxy handler with a drawn selection policy over shared upstreams, and the real openvpn matcher (shared digest cache); buffers come from the deterministic poisoning pool. Oracle per connection: every handler/upstream/branch/echo sees exactly that connection's own stream (a foreign tag or poison is reported with both connections), and the route taken is the one its own bytes select. The same worlds (plus the listener-wrapper, load-balancing, UDP and relay worlds) are also run in a -race build under the same seeded scheduler, whose hand-offs are transparent to the detector; reports with both stacks in repository code are violations. Non-trivial: >=2 connections overlapped in time; distinct: event-log hashes.",
+		Rule: "each run opens 2..32 (64 in thorough) simultaneous connections with distinct position-coded streams through ONE shared configuration: routes selected by the first byte lead to a shared throttle (total limiter) + recorder, tee + echo, consume + subroute + recorder, a subroute that falls through to the handler after it, the proxy handler with a drawn selection policy over shared upstreams, and the real openvpn matcher (shared digest cache); buffers come from the deterministic poisoning pool. Oracle per connection: every handler/upstream/branch/echo sees exactly that connection's own stream (a foreign tag or poison is reported with both connections), and the route taken is the one its own bytes select. The same worlds (plus the listener-wrapper, load-balancing, UDP and relay worlds) are also run in a -race build under the same seeded scheduler, whose hand-offs are transparent to the detector; reports with both stacks in repository code are violations. Two more phases reuse other worlds under C08 tags: the listener-wrapper world judged for buffer integrity after hand-off, and the throttle world (1..16 connections through one throttle handler) judged for independence - with per-connection limits only, a read asking for n bytes reaches the socket at most n/rate after the connection's previous read returned, and a per-connection byte budget is usable by every connection. Non-trivial: >=2 connections overlapped in time; distinct: event-log hashes.",
 		Run:  runC08,
 		MaxSteps: 80000,
 	})
